@@ -20,10 +20,7 @@ EXTENDS Integers, Sequences, FiniteSets, TLC, Json
 
 CONSTANTS N,               \* number of upstreams (uri + failover list)
           MaxFaults,       \* GEN/MC: at most this many non-healthy upstreams
-          TwoTimeouts,     \* GEN/MC: allow more than one upstream in mode "timeout"
-          Extra,           \* GEN/MC: modes used beyond the list in the property's quantifier ({} or {"json503un"})
-          Repaired         \* BOOLEAN: decodeErrorType maps Prometheus' own "unavailable"/"internal" to server_error
-                           \* (the repair proposed for finding C15-prom-5xx-errortype); FALSE is the pinned code
+          TwoTimeouts      \* GEN/MC: allow more than one upstream in mode "timeout"
 
 Modes == {"healthy",
           "refused",       \* nothing listens
@@ -34,9 +31,9 @@ Modes == {"healthy",
           "bad_data",      \* 400, JSON errorType=bad_data
           "exec422",       \* 422, JSON errorType=execution (e.g. many-to-many matching)
           "http404",       \* 404, plain text body
-          "truncated",     \* 200, JSON body breaks off
+          "truncated",     \* 200, connection closed in the middle of the body
+          "cutjson",       \* 200, HTTP-complete, JSON document ends at a token boundary inside "data"
           "exec500"}       \* 500, JSON errorType=execution
-ListedModes == Modes \ {"json503un"}
 Endpoints == {"query", "query_range", "config", "flags", "metadata"}
 OptionalAPIs == {"config", "flags", "metadata"}
 
@@ -62,12 +59,13 @@ Http(m) ==
     [] m = "exec422"   -> [transport |-> FALSE, status |-> 422, json |-> TRUE,  etype |-> "execution",    cut |-> FALSE]
     [] m = "http404"   -> [transport |-> FALSE, status |-> 404, json |-> FALSE, etype |-> "",             cut |-> FALSE]
     [] m = "truncated" -> [transport |-> FALSE, status |-> 200, json |-> TRUE,  etype |-> "",             cut |-> TRUE]
+    [] m = "cutjson"   -> [transport |-> FALSE, status |-> 200, json |-> TRUE,  etype |-> "",             cut |-> TRUE]
     [] m = "exec500"   -> [transport |-> FALSE, status |-> 500, json |-> TRUE,  etype |-> "execution",    cut |-> FALSE]
 
 \* errors.go decodeErrorType
 DecodeErrorType(s) ==
   IF s \in {"bad_data", "timeout", "canceled", "execution", "bad_response", "server_error", "client_error"} THEN s
-  ELSE IF Repaired /\ s \in {"unavailable", "internal"} THEN "server_error"
+  ELSE IF s \in {"unavailable", "internal"} THEN "server_error"     \* Prometheus' own 5xx types (repair of F20, commit b48406b)
   ELSE "unknown"
 
 \* errors.go tryDecodingAPIError (status is not 2xx)
@@ -110,7 +108,7 @@ AllDown(ms) == \A k \in 1..N : ms[k] \in {"refused", "timeout", "http500", "json
 InScope(ms) == (Faults(ms) <= MaxFaults \/ AllDown(ms)) /\ (TwoTimeouts \/ Timeouts(ms) <= 1)
 
 Init ==
-  /\ modes \in {ms \in [1..N -> ListedModes \cup Extra] : InScope(ms)}
+  /\ modes \in {ms \in [1..N -> Modes] : InScope(ms)}
   /\ ep \in Endpoints
   /\ required \in BOOLEAN
   /\ i = 1 /\ contacted = <<>> /\ disabled = {} /\ res = NoRes
@@ -159,7 +157,7 @@ DocClass(m, e) ==
     [] m \in {"bad_data", "exec422"} -> "query"                                            \* caused by the query itself
     [] m = "http404" -> IF e \in OptionalAPIs THEN "unsupported"    \* named deviation UnsupportedFallsThrough: deliberate
                                               ELSE "final"           \* not a connection error, timeout or 5xx
-    [] m \in {"truncated", "exec500"} -> "ambiguous"                \* the statement does not decide these
+    [] m \in {"truncated", "cutjson", "exec500"} -> "ambiguous"     \* the statement does not decide these
 
 MayContinue(c) == c \in {"unavailable", "ambiguous", "unsupported"}
 MayStop(c)     == c \in {"answers", "query", "final", "ambiguous", "unsupported"}
